@@ -38,12 +38,15 @@ def budget(cfg, tier):
 
 
 def interior_value(cfg, rng):
-    """digits that are zero or have leading zero nibbles/bits in the interior"""
+    """digits that are zero, have leading zero nibbles/bits in the interior, or equal a power of ten (the decimal chunk base)"""
     D, N = cfg.dbits, cfg.n
     p = 0
+    tens = [10 ** k for k in range(1, 20) if 10 ** k < (1 << D)]
     for i in range(N):
         r = rng.random()
-        if r < 0.3:
+        if r < 0.12:
+            d = rng.choice(tens[-3:]) + rng.choice((-1, 0, 0, 1))
+        elif r < 0.3:
             d = 0
         elif r < 0.55:
             d = rng.getrandbits(rng.randrange(1, D))  # leading zero bits
